@@ -21,6 +21,24 @@ def generate(ctx):
             b = text + t
             for rnt in (0, 1):
                 cases.append(G.pcase('L', rnt, len(b), b, {'tags': ['rnt-tail']}))
+    # every single byte as the trailer of a complete value, followed by a zero byte: with termination required only whitespace may
+    # precede the terminator (bytes >= 0x80 are not whitespace, whatever the signedness of char)
+    bases = [b'{"a":[1,2]}', b'[]', b'"s"', b'12', b'null'] + [G.weave_rfc(G.rfc_tokens(G.rand_rfc_value(rng, 1), rng), rng).rstrip(b' \t\r\n') for _ in range(2)]
+    if ctx.get('seed_index', 0) == 0:
+        for base in bases:
+            for x in range(1, 256):
+                for t in (bytes([x]) + b'\0', b' ' + bytes([x]) + b'\0', bytes([x, x]) + b'\0'):
+                    b = base + t
+                    cases.append(G.pcase('L', 1, len(b), b, {'tags': ['rnt-tail', 'tail-byte']}))
+                    if t[0] == x and len(t) == 2:
+                        cases.append(G.pcase('O', 1, 0, b, {'tags': ['rnt-tail', 'tail-byte']})); cases.append(G.pcase('L', 0, len(b), b, {'tags': ['rnt-tail', 'tail-byte']}))
+    # a refused allocation request is a failure like any other: NULL, and the error position is reported (equal through both channels, inside the buffer)
+    for base in bases[:5] + [b'{"k":"v","l":[true,{"m":null}]}  ']:
+        for k in range(1, 9):
+            for e, rnt in (('L', 0), ('L', 1), ('O', 1), ('o', 0), ('P', 0)):
+                b = base + b'\0'
+                c = G.pcase(e, rnt, len(b) if e in 'Ll' else 0, b, {'tags': ['alloc-failure', 'k=%d' % k], 'failk': k}, failk=k)
+                cases.append(c)
     return cases
 def project(c, out):
     tree, kv = G.fields(out)
@@ -44,6 +62,7 @@ def verdict(c, out, ctx):
         if err == 'NULL': return 'failure without error position'
         if not (0 <= int(err) < max(n, 1)): return 'error position %s outside the buffer of %d byte(s)' % (err, n)
         if end not in (None, '-') and end != err: return 'reported parse end %s differs from the global error position %s' % (end, err)
+    if c.info.get('failk'): return None       # whether the k-th request exists decides acceptance; the position constraints above are what C10 fixes
     if rnt:
         exp = G.lenient_accepts(c.info['content'], n, 1)
         if exp and tree == 'NULL': return 'termination required: value followed by whitespace and a zero byte inside the buffer was rejected'
